@@ -73,6 +73,8 @@ EffSetting(s, chain, default) ==
 FileData(c)    == EffData(c.data, ChainOfFile)
 MockData(c, m) == EffData(c.data, ChainOfMock(m))
 
+\* the template of an output file: `template` of its first mock (all mocks of a file must agree), root value c.tmpl
+Tmpl(c, f)      == EffSetting(c.tpl, ChainOfMock(FirstMock(f)), c.tmpl)
 Require(c, f)   == EffSetting(c.req, ChainOfMock(FirstMock(f)), "true") = "true"       \* default: true
 \* default: <template>.schema.json; "perif": a template-schema that mentions {{.InterfaceName}} -- one location per interface
 SchemaLoc(c, f) == LET s == EffSetting(c.tsch, ChainOfMock(FirstMock(f)), "default") IN
@@ -92,9 +94,11 @@ Valid(m, S) == /\ ~S.none
 IsShape(st) == st \in DOMAIN Shapes
 
 \* the schema that applies to file f, or why there is none
-SchemaState(c, f) == IF Builtin(c.tmpl) THEN "builtin" ELSE c.loc[SchemaLoc(c, f)]
-SchemaOf(c, f)    == IF Builtin(c.tmpl) THEN BuiltinSchemas[c.tmpl] ELSE Shapes[SchemaState(c, f)]
-Available(c, f)   == Builtin(c.tmpl) \/ IsShape(SchemaState(c, f))
+\* A built-in template has its built-in schema, whatever template-schema / require-template-schema-exists the
+\* file inherits from levels where a custom template is configured.
+SchemaState(c, f) == IF Builtin(Tmpl(c, f)) THEN "builtin" ELSE c.loc[SchemaLoc(c, f)]
+SchemaOf(c, f)    == IF Builtin(Tmpl(c, f)) THEN BuiltinSchemas[Tmpl(c, f)] ELSE Shapes[SchemaState(c, f)]
+Available(c, f)   == Builtin(Tmpl(c, f)) \/ IsShape(SchemaState(c, f))
 
 AllValid(c, f) == /\ Valid(FileData(c), SchemaOf(c, f))
                   /\ \A j \in 1..Len(MocksOf(f)) : Valid(MockData(c, MocksOf(f)[j]), SchemaOf(c, f))
@@ -105,13 +109,13 @@ AllValid(c, f) == /\ Valid(FileData(c), SchemaOf(c, f))
 \*          the documentation says no validation happens, the property text says data is validated --
 \*          both behaviours are accepted
 FileVerdict(c, f) ==
-  IF Builtin(c.tmpl) THEN (IF AllValid(c, f) THEN "ok" ELSE "bad")
+  IF Builtin(Tmpl(c, f)) THEN (IF AllValid(c, f) THEN "ok" ELSE "bad")
   ELSE IF Require(c, f) THEN (IF Available(c, f) /\ AllValid(c, f) THEN "ok" ELSE "bad")
   ELSE IF Available(c, f) /\ ~AllValid(c, f) THEN "either" ELSE "ok"
 
 \* must the data of f be validated before it is written?  "yes" | "no" | "any"
 MustValidate(c, f) ==
-  IF Builtin(c.tmpl) THEN "yes"
+  IF Builtin(Tmpl(c, f)) THEN "yes"
   ELSE IF Require(c, f) THEN (IF Available(c, f) THEN "yes" ELSE "fail")     \* "fail": fetching the schema must fail
   ELSE IF Available(c, f) THEN "any" ELSE "no"
 
@@ -123,7 +127,7 @@ BadMaps(c, f) ==
 
 Expect(c) == [f \in Files |-> [verdict |-> FileVerdict(c, f), validate |-> MustValidate(c, f),
                                 require |-> Require(c, f), loc |-> SchemaLoc(c, f),
-                                state |-> SchemaState(c, f), bad_maps |-> BadMaps(c, f)]]
+                                state |-> SchemaState(c, f), bad_maps |-> BadMaps(c, f), tmpl |-> Tmpl(c, f)]]
 RunMustFail(c)    == \E f \in Files : FileVerdict(c, f) = "bad"
 RunMustSucceed(c) == \A f \in Files : FileVerdict(c, f) = "ok"
 
@@ -159,12 +163,12 @@ Done == /\ pc = "pick" /\ pendingF = {}
         /\ pc' = "exit0"
         /\ UNCHANGED <<case, pendingF, cur, cache, sch, written, validated>>
 
-CacheKey(f) == IF CacheKeyedByTemplateOnly THEN <<case.tmpl>> ELSE <<case.tmpl, SchemaLoc(case, f)>>
+CacheKey(f) == IF CacheKeyedByTemplateOnly THEN <<Tmpl(case, f)>> ELSE <<Tmpl(case, f), SchemaLoc(case, f)>>
 
 \* template_generator.go:330-379 + remote_template.go:90-110
 GetTemplate ==
   /\ pc = "template"
-  /\ IF Builtin(case.tmpl)
+  /\ IF Builtin(Tmpl(case, cur))
      THEN sch' = "builtin" /\ pc' = "schema" /\ UNCHANGED cache
      ELSE LET key   == CacheKey(cur)
               known == key \in DOMAIN cache
@@ -184,7 +188,7 @@ GetTemplate ==
                           ELSE sch' = "nil" /\ pc' = "exit1"          \* download / parse error aborts the run
   /\ UNCHANGED <<case, pendingF, cur, written, validated>>
 
-SchemaRec(s) == IF s = "builtin" THEN BuiltinSchemas[case.tmpl] ELSE Shapes[s]
+SchemaRec(s) == IF s = "builtin" THEN BuiltinSchemas[Tmpl(case, cur)] ELSE Shapes[s]      \* compiled per file
 
 \* template_generator.go:381-394, 470-478
 Validate ==
@@ -221,7 +225,7 @@ FailureHasAReason      == pc = "exit1" => ~RunMustSucceed(case)
 -----------------------------------------------------------------------------
 Emit ==
   IF pc = "pick" /\ pendingF = Files     \* once per case (the initial state)
-  THEN PrintT(<<"CASE", ToJson([id |-> case.id, tmpl |-> case.tmpl, loc |-> case.loc, tsch |-> case.tsch,
+  THEN PrintT(<<"CASE", ToJson([id |-> case.id, tmpl |-> case.tmpl, tpl |-> case.tpl, loc |-> case.loc, tsch |-> case.tsch,
                                  req |-> case.req, data |-> case.data, pre |-> case.pre, fam |-> case.fam,
                                  expect |-> Expect(case),
                                  must_fail |-> RunMustFail(case), must_succeed |-> RunMustSucceed(case)])>>)
